@@ -32,7 +32,7 @@ def glue(fn, outs, post, muts):
   if (d == &D) __CPROVER_assert (V_val (&D) == vd, "[C05] divisor (not an output) unchanged");
 }''' % (fn, args, post)]
     return dict(name=name, props=['C02', 'C05'], source='mpz/%s.c' % fn, contracts=['tokens.h'], functions={'__gmpz_' + fn: {}},
-                harness='\n'.join(h), unwind=10, assumptions=ASM, selftest=[('__gmpz_' + fn,) + m for m in muts])
+                harness='\n'.join(h), unwind=18, assumptions=ASM, selftest=[('__gmpz_' + fn,) + m for m in muts])
 FLOOR = '  _Bool adj = tr != 0 && ((vn < 0) != (vd < 0));   /* floor: q = trunc - 1, r = rem + d when the exact quotient is negative and inexact */\n'
 CEIL = '  _Bool adj = tr != 0 && ((vn < 0) == (vd < 0));   /* ceiling: q = trunc + 1, r = rem - d when the exact quotient is positive and inexact */\n'
 AQ = lambda sgn: '  __CPROVER_assert (V_val (q) == tq %s (adj ? 1 : 0), "[C02] quotient rounded in the documented direction");\n' % sgn
